@@ -17,4 +17,12 @@ CHECKS.update({
             "Telemetry is tied to the runner's queue / in_progress sets (the anchors named by the property).", ENGINE_TECH),
 })
 
+GRID_TECH = "exhaustive enumeration of a finite configuration grid, each case executed on the real engine under the virtual clock and compared with an independent reference"
+CHECKS.update({
+    "C05": ("6/C05", "Complete grid of retry policies (attempt/delay budgets, |,& compositions, retryable vs not, legacy constructors, seedless custom policy) x step durations x delays x clock configurations (wall/monotonic bases differ/equal, wall-clock adapter) x failure-event kind; executions, retry_info and failure-event fields are compared with a reference computed from really elapsed virtual time.",
+            "wait_fixed delays only (delay indexing is C06). The clock defect found by this check was repaired (fix: c88b71f).", GRID_TECH),
+    "C06": ("6/C06", "Every listed wait-strategy instance x 1..4(6) retries; the gap between the k-th failure and the k-th retry of a real failing step on the virtual clock is compared with the tenacity-documented delay.",
+            "One genuine defect (1-based count into 0-based strategies) recorded as known findings per strategy shape; other shapes/clauses still alarm.", GRID_TECH),
+})
+
 NOT_APPLICABLE = {}
